@@ -417,7 +417,9 @@ def run(ctx):
         'action_lines_compared': lines_compared,
         'operation_histogram': dict(sorted(hist.items())),
     }
-    return {'coverage': cov, 'disagreements': disagreements, 'oracle_failures': oracle_failures}
+    kdis, korc, kcov = run_timerk(ctx)        # extra leg: the K program of Props/C19K.lean against the real Timer
+    cov['timer_on_kernel_model'] = kcov
+    return {'coverage': cov, 'disagreements': disagreements + kdis, 'oracle_failures': oracle_failures + korc}
 
 
 # ---- the Timer as processes on the kernel MODEL (lean/OnlVerif/Util/TimerOnK.lean, driver mode `timerk`) -------------
